@@ -817,6 +817,8 @@ func main() {
 		"held as []T, [1]T, []*T, map[string]T, T, *T; outer []E, [2]E, map[string]E, map[int]E; inner types written or elided; nil pointer elements; value returned / typed var / := / argument / assigned / struct field / closure result), window rotated by the seed (thorough: the whole table); "+
 		"addr: one program per int-like kind (16): functions returning &x of a local (owned by the function scope / by a block) taken from inside 0..4 nested Env-owning scopes (blocks with locals, for/if/switch headers with :=), "+
 		"each called twice with other calls in between, pointers compared, read, written independently; "+
+		"bounds: 28 programs, one per combination of FORMS of the slice bounds (2-index: lo, hi in omitted/constant/id(v)/local variable; 3-index: lo in omitted/constant/id(v), hi and max in constant/id(v)), each applying it with every bound value in 0, 2, len, len+1, cap, cap+1 "+
+		"to slices with cap 6 > len 3 (re-sliced literal, append into a larger make, 3-index slice), a full slice, an array variable, a pointer to an array and a string variable; every case under its own recover, showing len, cap, elements, then the backing array after an append to the result; "+
 		"a run case is non-trivial when it executed >= 3 operations of which >= 1 slicing/append/copy/map operation; distinct by SHA-256 of the source")
 	nRun, nExtra, nCt, perShard := 200, 80, 120, 100
 	nFresh := 2 * ((len(fsites) + 2) / 3) // 3 sites per program: every site is used twice
@@ -927,6 +929,15 @@ func main() {
 			}
 		}
 	}
+	// bound-form matrix (bounds.go): every combination of omitted / constant / call / local-variable slice bounds on
+	// slices with cap > len, arrays, pointers to arrays, strings; deterministic, the seed only rotates the element kind
+	if a.Replay == "" {
+		bp, feats := genBoundsAll(len(progs), a.Seed)
+		progs = append(progs, bp...)
+		for _, f := range feats {
+			rep.Dist(f)
+		}
+	}
 	// canaries of finding C08-4 (exact inputs: corpus/C08/04_*.json, 05_*.json): while they reproduce, the cidx generator
 	// writes a VARIABLE index on literals with self-referential element type resp. a non-nil pointer element
 	avoidConstIdxRec = vh.Catch(func() {
@@ -1023,7 +1034,9 @@ func main() {
 			continue
 		}
 		same := g.panic == w.panic && g.mark == w.mark && strings.Join(g.out, ",") == strings.Join(w.out, ",") && fmt.Sprint(g.caps) == fmt.Sprint(w.caps)
-		if !same {
+		if !same && p.Kind == "bounds" {
+			fail("gomacro differs from compiled Go", boundsFirstDiff(p, g.out, w.out), fmt.Sprintf("panic=%q after op %d out=%v", w.panic, w.mark, w.out))
+		} else if !same {
 			fail("gomacro differs from compiled Go", fmt.Sprintf("panic=%q after op %d out=%v caps=%v", g.panic, g.mark, g.out, g.caps),
 				fmt.Sprintf("panic=%q after op %d out=%v caps=%v", w.panic, w.mark, w.out, w.caps))
 		}
